@@ -67,11 +67,13 @@ class Controller:
         fine_points=False,
         pool_alts=("complete", "timeout", "zombie"),
         rdkit_alts=("normal", "cancel", "raise"),
+        fine_files=None,
     ):
         self.deviations = {int(k): tuple(v) for k, v in (deviations or {}).items()}
         self.active = set(active)
         self.isolation = isolation
         self.fine_points = fine_points
+        self.fine_files = tuple(fine_files) if fine_files else None
         self.pool_alts = tuple(pool_alts)
         self.rdkit_alts = tuple(rdkit_alts)
         self.points = []
@@ -80,6 +82,7 @@ class Controller:
         self.counters = {}
         self.parallel_calls = 0
         self.log = []  # human-readable trace of seam crossings
+        self.job_stack = []  # labels of the thread-pool jobs currently executing
         self._in_choice = False
 
     # -- choice points
@@ -144,7 +147,9 @@ class Controller:
         def prof(frame, event, arg):
             if event == "call":
                 co = frame.f_code
-                if co.co_filename.startswith(prefix):
+                if co.co_filename.startswith(prefix) and (
+                    ctl.fine_files is None or co.co_filename.endswith(ctl.fine_files)
+                ):
                     ctl.sched_point("call:" + co.co_name)
 
         sys.setprofile(prof)
@@ -327,6 +332,15 @@ class _AsyncResult:
                 self.kwds.get("method"),
                 "" if self.kwds.get("RingMatchesRingOnly", True) else "-noring",
             )
+        if self.args and isinstance(self.args[0], (list, tuple)) and self.args[0]:
+            # fragment analysis: identify the reaction by the molecules it was given
+            try:
+                from rdkit import Chem
+
+                smi = sorted(Chem.MolToSmiles(m) for m in self.args[0])
+                extra += "@mols=" + ".".join(smi)
+            except Exception:
+                pass
         return "{}#{}{}".format(name, k, extra)
 
     def get(self, timeout=None):
@@ -337,7 +351,11 @@ class _AsyncResult:
         alt = alts[ctl.choose("pool", label, len(alts))]
         ctl.log.append("pool {} -> {}".format(label, alt))
         if alt == "complete":
-            return self.func(*self.args, **self.kwds)
+            ctl.job_stack.append(label)
+            try:
+                return self.func(*self.args, **self.kwds)
+            finally:
+                ctl.job_stack.pop()
         if alt == "zombie":
             args = list(self.args)
             proxies = []
@@ -402,7 +420,7 @@ def _wrap_rdkit():
 
     def FindMCS(*a, **k):
         ctl = current()
-        label = "FindMCS#{}".format(ctl.count("rdkit:FindMCS"))
+        label = "FindMCS#{}<{}>".format(ctl.count("rdkit:FindMCS"), ctl.job_stack[-1] if ctl.job_stack else "")
         alt = ctl.rdkit_alts[ctl.choose("rdkit", label, len(ctl.rdkit_alts))]
         if alt == "cancel":
             return _CancelledMCS()
@@ -412,7 +430,7 @@ def _wrap_rdkit():
 
     def FindMCES(*a, **k):
         ctl = current()
-        label = "FindMCES#{}".format(ctl.count("rdkit:FindMCES"))
+        label = "FindMCES#{}<{}>".format(ctl.count("rdkit:FindMCES"), ctl.job_stack[-1] if ctl.job_stack else "")
         alt = ctl.rdkit_alts[ctl.choose("rdkit", label, len(ctl.rdkit_alts))]
         if alt == "cancel":
             return [object()]  # a result without atom matches
